@@ -18,6 +18,8 @@
 //
 // output:  O <per program: outputs on train rows then query rows>  R <results>
 //   T: q <pred>...  t <pred>...  acc <hex>  fit <hex|->  l <pred>... (lambdify'ed model on the queries)
+//      rt <pred>... (the model after serialize::save + serialize::lambda::load, on the queries)
+//      ser <hex of the saved text>  inds <hex of each member individual's own save text>
 //      [var <hex>... per-class variance, gauss/ind only]
 //      [mat <rows> <cols> <counts>..  cls <slot classes>..  slots <slot of each query, then of each train row>, dyn/ind only]
 //   H: after each op  "| <slot>=<pred>,<pred>.. <slot>=..."
@@ -240,6 +242,34 @@ std::string t_case(const casedata &c, MK mk, EV *ev)
   out += " l";
   if (lam)
     for (const auto &r : c.query) out += " " + predict_dyn(lam.get(), mk_example(r), cls);
+  {
+    // serialize::save / serialize::lambda::load round trip of this model
+    std::stringstream ss;
+    const bool saved(serialize::save(ss, *m));
+    const std::string text(ss.str());
+    std::unique_ptr<basic_src_lambda_f> l2;
+    std::string err;
+    try { l2 = serialize::lambda::load<P>(ss, PR->sset); }
+    catch (const std::exception &e) { err = e.what(); }
+    out += " rt";
+    if (!saved || !l2)
+      out += " FAIL";
+    else
+      for (const auto &r : c.query) out += " " + predict_dyn(l2.get(), mk_example(r), cls);
+    auto hexs = [](const std::string &t)
+    {
+      std::string h;
+      for (unsigned char ch : t) { char b[4]; std::snprintf(b, sizeof(b), "%02x", ch); h += b; }
+      return h.empty() ? std::string("-") : h;
+    };
+    out += " ser " + hexs(text) + " inds";
+    for (const auto &sp : c.progs)
+    {
+      std::stringstream si;
+      make_prog(sp).save(si);
+      out += " " + hexs(si.str());
+    }
+  }
   if constexpr (std::is_same_v<M, dyn_slot_lambda_f<IND>>)
   {
     // internal tables: the python oracle recomputes the slot -> class rule from them
